@@ -302,6 +302,7 @@ def run_impl(case):
     nav1 = n1.to_text()
     nav1_full = n1.to_text(full_quote=True)
     parts1 = list(n1.path_parts)
+    q1 = [[k, v] for k, v in n1.query_params.items(multi=True)]
     r2 = _as_arg(URL, case["ref2"], case["as_url2"])
     ref2t = r2 if isinstance(r2, str) else r2.to_text()
     ref2f = (URL(r2) if isinstance(r2, str) else r2).to_text(full_quote=True)
@@ -309,6 +310,7 @@ def run_impl(case):
     nav2 = n2.to_text()
     nav2_full = n2.to_text(full_quote=True)
     parts2 = list(n2.path_parts)
+    q2 = [[k, v] for k, v in n2.query_params.items(multi=True)]
     # independence: mutate everything reachable from the second result, re-read the first ...
     _mutate(n2)
     nav1_again = n1.to_text()
@@ -327,7 +329,7 @@ def run_impl(case):
     nr2 = ur.to_text()
     return {"before": before, "nav1": nav1, "nav1_again": nav1_again, "after": after, "nav2": nav2,
             "nb1": nb1, "nb2": nb2, "nr1": nr1, "nr2": nr2, "ref1t": ref1t, "ref2t": ref2t,
-            "parts1": parts1, "parts2": parts2,
+            "parts1": parts1, "parts2": parts2, "q1": q1, "q2": q2,
             "full": [before_full, ref1f, nav1_full, ref2f, nav2_full]}
 
 
@@ -384,11 +386,14 @@ FIELDS = ["before", "nav1", "nav1_again", "after", "nav2", "nb1", "nb2", "nr1", 
 
 
 def to_coq(case, obs):
-    return "(mkCase %s %s %s %s %s %s (mkObs %s %s %s), mkFull %s)" % (
+    def pairs(l):
+        return clist("(%s, %s)" % (_codes(k), "None" if v is None else "(Some %s)" % _codes(v)) for k, v in l)
+    return "(mkCase %s %s %s %s %s %s (mkObs %s %s %s %s %s), mkFull %s)" % (
         _codes(case["base"]), cbool(bool(case.get("unrooted"))), _codes(case["ref1"]), cbool(bool(case["as_url1"])),
         _codes(case["ref2"]), cbool(bool(case["as_url2"])),
         " ".join(_codes(obs[k]) for k in FIELDS),
         clist(_codes(p) for p in obs["parts1"]), clist(_codes(p) for p in obs["parts2"]),
+        pairs(obs["q1"]), pairs(obs["q2"]),
         " ".join(_codes(t) for t in obs["full"]))
 
 
